@@ -145,8 +145,13 @@ TrNext(kind) ==
                 item(Pv) == LET q == seqOf(Pv) IN
                             IF q.k = "ok" /\ O.n + 1 <= Len(q.v) THEN [k |-> "some", v |-> q.v[O.n + 1]] ELSE [k |-> "none"]
                 a == item(P)  b == item(EngView(P))
+                (* a Match entry whose expected tree is bare text may stand for a match whose group nesting is not  *)
+                (* definite (a retained group outside its parent's final span): there only the text is compared   *)
+                bare(x) == kind = "ana" /\ x.k = "some" /\ "m" \in DOMAIN x.v /\ Len(x.v.m) = 1 /\ "s" \in DOMAIN x.v.m[1]
+                flatEq(x) == some /\ x.k = "some" /\ FlatEntry(Ev.res.v) = FlatEntry(x.v)
             IN /\ UNCHANGED <<avars, badi>> /\ Bump(3)
-               /\ Check(Ev.res = a \/ Ev.res = b, IF kind = "tok" THEN "tok" ELSE "anaflat", a)
+               /\ Check(Ev.res = a \/ Ev.res = b \/ (bare(a) /\ flatEq(a)) \/ (bare(b) /\ flatEq(b)),
+                        IF kind = "tok" THEN "tok" ELSE "anaflat", a)
           ELSE IF O.weak THEN
             (* non-strict pattern: leftmost start and membership of the span in the match relation *)
             /\ UNCHANGED <<avars, badi>> /\ Bump(3)
